@@ -12,7 +12,7 @@ def run(t):
     vh = build_vh()
     pipeline.model_check(run, quick_negs=["WrongDigestNamed"])
     cases = [c for c in pipeline.gen_cases(run, "SignPipeline_Gen1.cfg")
-             if c["type"] in ("jar", "pe-dll", "pe-exe", "ps1", "ps1xml", "mof", "deb", "pgp-detached", "pgp-clearsign")]
+             if c["type"] in ("jar", "pe-dll", "pe-exe", "ps1", "ps1xml", "mof", "deb", "pgp-detached", "pgp-clearsign", "pgp-inline")]
     c = pipeline.replay(run, vh, cases, "C05", external=True, shards=8)
     ext = {k: v for k, v in c.items() if k.startswith("ext_")}
     if sum(ext.values()) < 200:
